@@ -83,3 +83,39 @@ def observe_and_judge(rep, progs, optsets, family, tag, rng, variant_share=0.25)
     for o in list(keep.values())[:1] + [x for x in keep.values() if x['alias']][:1] + [x for x in keep.values() if 'walrus' in str(x['occ'])][:1]:
         rep.sample({'source': o['src'], 'output': o['out_src'], 'occurrences': [(x['scope'], x['name'], x['how'], x['out']) for x in o['occ']]})
     return skipped
+
+
+def pep709_replay(rep, tier, rng, tag):
+    """the PEP 709 skeleton (module > function > function > {comprehension, lambda | comprehension | function}) with list-comprehension spelling:
+    TLC judges every observed renaming under the <= 3.11 rules and under the >= 3.12 rules (Trace_Rename709.cfg); a c03 rejection that exists only
+    under the latter is the known finding D18"""
+    progs, _ = tlc.cached_export('Rename', 'Export_Rename_709.cfg', timeout=3600)
+    idx = list(range(len(progs)))
+    rng.shuffle(idx)
+    take = 3000 if tier == 'quick' else 40000
+    jobs = [{'id': '709-%d|TT|lc' % k, 'p': progs[k], 'variant': 0, 'opts': {'rl': True, 'rg': True}, 'listcomp': True} for k in sorted(idx[:take])]
+    obs = local.pmap(scopegen.observe, jobs, chunksize=64)
+    rep.evaluations += len(obs)
+    keep = {o['id']: o for o in obs if not o.get('skip')}
+    records = [{k: v for k, v in o.items() if k not in ('src', 'out_src')} for o in keep.values()]
+    v_old, judged = tlc.judge('Trace_Rename', 'Trace_Rename.cfg', records, tag=tag + 'a', timeout=7200)
+    v_new, _ = tlc.judge('Trace_Rename', 'Trace_Rename709.cfg', records, tag=tag + 'b', timeout=7200)
+    rep.add_judged(judged * 2)
+    n709 = 0
+    for rid, v in sorted(v_new.items()):
+        if not v[0].startswith('c03:'):
+            continue
+        o = keep[rid]
+        only_new = rid not in v_old or v_old[rid][0] == 'c03:behaviour-differs-although-the-static-rules-hold'
+        if only_new:
+            n709 += 1
+        shape = 'kinds=%s uses=%s' % (''.join(o['kind']), sorted(set((x['scope'], x['name'], x['how']) for x in o['occ'])))
+        rep.violation(key=('D18:' if only_new else '') + sha(shape)[:12] + '|' + v[0], clause=v[0], what=rid + ' source:\n' + o['src'] + '--- output:\n' + o['out_src'],
+                      replay={'kind': 'minify', 'version': '3.12', 'src_b64': inputs.b64(o['src'].encode()), 'opts': {'rename_globals': True, 'hoist_literals': False}})
+    for rid, v in sorted(v_old.items()):
+        if rid in v_new or not v[0].startswith('c03:'):
+            continue
+        o = keep[rid]
+        rep.violation(key='709old|' + rid + '|' + v[0], clause=v[0], what=rid + ' source:\n' + o['src'] + '--- output:\n' + o['out_src'],
+                      replay={'kind': 'minify', 'version': '3.12', 'src_b64': inputs.b64(o['src'].encode()), 'opts': {'rename_globals': True}})
+    return len(jobs), n709
